@@ -53,7 +53,7 @@ CHECKS = {
     "C04": dict(
         level="exploration",
         rule="three stream sources: (gen) VP8 key frames written by /verif's boolean encoder: rapid-chosen header syntax (segment map/data abs/delta, per-segment quantiser/filter, simple/normal filter, level, sharpness, ref/mode deltas, 1-8 partitions, base q and 5 deltas, coefficient-probability updates, skip probability, profile 0-3) followed by random mode bits and random token partitions (optionally sparse); "
-             "(gen+alph) the same plus a raw ALPH plane with filter 0-3; (libwebp) pictures encoded by libwebp 1.2.4 at random quality (its ALPH methods/filters). "
+             "(gen+alph) the same plus a raw ALPH plane with filter 0-3; (gen+alphl) the same plus an ALPH payload compressed with a /verif-generated VP8L stream (all transforms, caches, code shapes; filter 0-3, pre-processing bit); (libwebp) pictures encoded by libwebp 1.2.4 at random quality (its ALPH methods/filters). "
              "Oracle: Y/U/V planes (or RGBA with alpha) bit-exact vs libwebp AND x/image (both must accept and agree, else the case is inconclusive); RGBA confirmed by a reference fancy upsampler. "
              "Non-trivial: truth established by two agreeing witnesses; distinct = header-feature signature.",
         assumptions=["libwebp 1.2.4 and golang.org/x/image/vp8 agreeing with each other define the format's samples", "streams all witnesses reject or disagree on are excluded and counted (inconclusive)"],
